@@ -146,7 +146,107 @@ def c01(ctx):
                   ['oracle: Grammar.tla Decl (last lowest-precedence split), checked equal to the precedence-climbing transcription Climb on every token sequence up to the bound'])
 
 
-REGISTRY = {'C01': c01}
+# =========================================================================== C14
+def c14(ctx):
+    acc = Acc()
+    base = 'INIT Init\nNEXT Next\nINVARIANT InvSegmentation\nINVARIANT EmitVector\nCHECK_DEADLOCK FALSE\n'
+    clen = pick(ctx, 4, 5)
+    g_parse(ctx, acc, 'c14chars', 'MC_C14', 'CONSTANT MaxLen = %d\nCONSTANT Mode = "chars"\n' % clen + base, PARSE_KINDS_TREE)
+    plen = pick(ctx, 2, 3)
+    g_parse(ctx, acc, 'c14pieces', 'MC_C14', 'CONSTANT MaxLen = %d\nCONSTANT Mode = "pieces"\n' % plen + base, PARSE_KINDS_TREE)
+    # random strings up to length 60 (random behaviours of the same machine)
+    g_parse(ctx, acc, 'c14sim', 'MC_C14', 'CONSTANT MaxLen = 60\nCONSTANT Mode = "chars"\n' + base, PARSE_KINDS_TREE,
+            extra=['-simulate', 'num=%d' % pick(ctx, 150, 3000), '-depth', '61', '-seed', str(ctx.seed)], workers=1)
+    g_parse(ctx, acc, 'c14simp', 'MC_C14', 'CONSTANT MaxLen = 20\nCONSTANT Mode = "pieces"\n' + base, PARSE_KINDS_TREE,
+            extra=['-simulate', 'num=%d' % pick(ctx, 150, 3000), '-depth', '21', '-seed', str(ctx.seed)], workers=1)
+    return result('model_checking', acc, True,
+                  "all strings up to length %d over the 16-symbol alphabet %%\\{}:pAQnc0178@x and all sequences of up to %d documented directives/escapes/literals, submitted as -printf '<s>' (TLC state graph; InvSegmentation checked in every state), plus random strings to length 60; distinct = vectors with a specified verdict" % (clen, plen),
+                  ['oracle: Format.tla FmtParse; 1- and 2-digit octal runs and %{xattr:NAME} with non-alphabetic NAME are unspecified and not judged'])
+
+
+
+STD = 'INIT Init\nNEXT Next\nCHECK_DEADLOCK FALSE\n'
+
+
+def cfg(consts, invs):
+    return ''.join('CONSTANT %s\n' % c for c in consts) + STD + ''.join('INVARIANT %s\n' % i for i in invs)
+
+
+# =========================================================================== C05
+def c05(ctx):
+    acc = Acc()
+    cap = pick(ctx, 6, 60)
+    g_parse(ctx, acc, 'c05g', 'MC_C05', cfg(['MemberCap = %d' % cap, 'Contexts = {1, 2, 3, 4, 5}'], ['EmitVector']), PARSE_KINDS_TREE)
+    t_parse(ctx, acc, 'c05t', ['--mode', 'vocab', '--count', str(pick(ctx, 6000, 60000)), '--seed', str(ctx.seed)], PARSE_KINDS_TREE)
+    return result('model_checking', acc, True,
+                  'every keyword of Vocab.tla (55) x up to %d members of its (last) argument language x 60 corruptions (junk appended / prefixed / inserted, missing argument, junk glued to the keyword, truncated keyword, keyword glued to argument) x 5 contexts; plus seeded random primaries with mutated arguments validated by TLC; distinct = inputs with a specified verdict' % cap,
+                  ['oracle: Vocab.tla + ArgLang.tla; quoted numeric arguments, 1-2 digit octal modes and glue around "!" "(" are unspecified and not judged',
+                   'multi-clause symbolic modes are left to C08'])
+
+
+# =========================================================================== C06
+def c06(ctx):
+    acc = Acc()
+    inv = ['InvSpecAgrees', 'InvBlank', 'EmitVector', 'EmitBlank']
+    g_parse(ctx, acc, 'c06g1', 'MC_C06', cfg(['MaxDev = 1', 'MaskSet = {0, 1, 2, 3}'], inv), PARSE_KINDS_TREE)
+    if ctx.quick:
+        g_parse(ctx, acc, 'c06g2', 'MC_C06', cfg(['MaxDev = 2', 'MaskSet = {0}'], inv), PARSE_KINDS_TREE)
+    else:
+        g_parse(ctx, acc, 'c06g2', 'MC_C06', cfg(['MaxDev = 2', 'MaskSet = {0, 1, 2, 3}'], inv), PARSE_KINDS_TREE, timeout=3000)
+        g_parse(ctx, acc, 'c06gs', 'MC_C06', cfg(['MaxDev = 8', 'MaskSet = {0, 1, 2, 3, 5, 7}'], inv), PARSE_KINDS_TREE,
+                extra=['-simulate', 'num=20000', '-depth', '11', '-seed', str(ctx.seed)], workers=1, timeout=3000)
+    t_parse(ctx, acc, 'c06t', ['--mode', 'layout', '--count', str(pick(ctx, 4000, 40000)), '--seed', str(ctx.seed)], PARSE_KINDS_TREE)
+    return result('model_checking', acc, True,
+                  'all trees of size <= 3 over 6 primaries (+3 larger) x redundant-parenthesis masks x every single deviation and every pair of deviations from the canonical spelling (separator per gap, leading/trailing blanks, AND/OR spelling, quoting style); expected = the specification result for the canonical spelling; all blank strings of length <= 3; plus seeded random layouts validated by TLC',
+                  ['oracle: Lexer.tla + Grammar.tla; InvSpecAgrees shows the specification itself assigns every variant the canonical result'])
+
+
+# =========================================================================== C07 (front-end part; emitted constants are added by the back-end stage)
+def c07_front(ctx, acc):
+    g_parse(ctx, acc, 'c07g', 'MC_C07', cfg(['Seed = %d' % (ctx.seed % 100000), 'NRandom = %d' % pick(ctx, 6, 120)], ['EmitVector']), PARSE_KINDS_TREE, timeout=3000)
+    t_parse(ctx, acc, 'c07t', ['--mode', 'numbers', '--count', str(pick(ctx, 3000, 30000)), '--seed', str(ctx.seed)], PARSE_KINDS_TREE)
+
+
+# =========================================================================== C08 (front-end part)
+def c08_front(ctx, acc):
+    inv = ['InvChmod', 'InvOracleAgrees', 'EmitVector']
+    g_parse(ctx, acc, 'c08oct', 'MC_C08', cfg(['MaxLen = 1', 'Mode = "octal"', 'Slice = 1'], inv), PARSE_KINDS_TREE)
+    g_parse(ctx, acc, 'c08cl', 'MC_C08', cfg(['MaxLen = 2', 'Mode = "clauses"', 'Slice = %d' % pick(ctx, 16, 1)], inv), PARSE_KINDS_TREE, timeout=3000)
+    if not ctx.quick:
+        g_parse(ctx, acc, 'c08sim', 'MC_C08', cfg(['MaxLen = 4', 'Mode = "clauses"', 'Slice = 1'], inv), PARSE_KINDS_TREE,
+                extra=['-simulate', 'num=7000', '-depth', '5', '-seed', str(ctx.seed)], workers=1, timeout=3000)
+    t_parse(ctx, acc, 'c08t', ['--mode', 'perm', '--count', str(pick(ctx, 3000, 30000)), '--seed', str(ctx.seed)], PARSE_KINDS_TREE)
+
+
+# =========================================================================== C13 (front-end part)
+def c13_front(ctx, acc):
+    g_parse(ctx, acc, 'c13g', 'MC_C13', cfg(['MaxIns = %d' % pick(ctx, 2, 3)], ['InvOptions', 'EmitVector']), PARSE_KINDS_TREE, timeout=3000)
+    t_parse(ctx, acc, 'c13t', ['--mode', 'options', '--count', str(pick(ctx, 3000, 30000)), '--seed', str(ctx.seed)], PARSE_KINDS_TREE)
+
+
+# =========================================================================== C18
+def c18(ctx):
+    acc = Acc()
+    g_parse(ctx, acc, 'c18arg', 'MC_C18', cfg(['Mode = "arg"'], ['EmitVector', 'InvAttributable']), PARSE_KINDS_ERRTEXT)
+    g_parse(ctx, acc, 'c18unk', 'MC_C18', cfg(['Mode = "unknown"'], ['EmitVector']), PARSE_KINDS_ERRTEXT)
+    # the C05 corpus is full of rejected inputs: its error texts are checked too
+    g_parse(ctx, acc, 'c18voc', 'MC_C05', cfg(['MemberCap = %d' % pick(ctx, 3, 20), 'Contexts = {1, 2, 4}'], ['EmitVector']), PARSE_KINDS_ERRTEXT)
+    t_parse(ctx, acc, 'c18t', ['--mode', 'errors', '--count', str(pick(ctx, 4000, 40000)), '--seed', str(ctx.seed)], PARSE_KINDS_ERRTEXT)
+    return result('model_checking', acc, True,
+                  'every argument-taking keyword (43) x {argument missing at end of input, missing before ")", 6 words invalid from their first character per argument language} after 0..3 valid primaries and before 0..2 more; 8 unknown words at every position of 4 base expressions; the rejected inputs of the C05 corpus; seeded damaged expressions validated by TLC. Required facts (keyword, back-quoted offending word, non-empty, no quoted text foreign to the input) come from the specification',
+                  ['oracle: Lexer.tla error facts (why/kw/w/fs); no wording is prescribed, the text must CONTAIN the keyword and the back-quoted word'])
+
+
+def front_only(fn, level, rule, assumptions):
+    def run(ctx):
+        acc = Acc()
+        fn(ctx, acc)
+        return result(level, acc, True, rule, assumptions)
+    return run
+
+
+REGISTRY = {'C01': c01, 'C14': c14, 'C05': c05, 'C06': c06, 'C18': c18}
+
 
 
 def run(ctx):
